@@ -259,7 +259,7 @@ def prove(run, cfg):
     prop = run.prop
     files = lean_files_of(prop, cfg.get("lean_dirs", ()))
     bad = source_grep(files)
-    ok, out = lake_build([f"GPy.{prop}.Props", "gpymodel"])
+    ok, out = lake_build([f"GPy.{prop}.Props", f"gpymodel-{prop}"])
     broken = []
     thms = []
     if not ok:
@@ -294,7 +294,7 @@ def prove(run, cfg):
 def correspond(run, cfg, have_model=True):
     """generate cases with the compiled Lean driver, run them on the implementation, three-way diff"""
     prop, tier, seed = run.prop, run.tier, run.seed
-    model_bin = os.path.join(LEAN, ".lake", "build", "bin", "gpymodel")
+    model_bin = os.path.join(LEAN, ".lake", "build", "bin", f"gpymodel-{prop}")
     cases_path = os.path.join(WORK, f"{prop}.cases")
     t = time.time()
     with open(cases_path, "w") as f:
@@ -383,7 +383,7 @@ def run_check(prop, tier, seed):
     proved, problems, built = prove(run, cfg)
     if not built:
         # the model library no longer builds: try to at least build the driver for the search
-        lake_build(["gpymodel"])
+        lake_build([f"gpymodel-{prop}"])
     res, err = correspond(run, cfg)
     if hasattr(plug, "extra"):
         plug.extra(run)
